@@ -210,7 +210,7 @@ def rule_r3(chk, p, t):
     tb = p.cls("resonaate.dynamics.two_body.TwoBody").methods.get("_differentialEquation")
 
     def one():
-        stores = [n for n in walk_no_nested(tb.node) if isinstance(n, ast.Assign) and isinstance(n.targets[0], ast.Subscript) and unparse(n.targets[0].value) == "derivative" and unparse(n.targets[0].slice.lower) == "jj + half"]
+        stores = [n for n in walk_no_nested(tb.node) if isinstance(n, ast.Assign) and isinstance(n.targets[0], ast.Subscript) and unparse(n.targets[0].value) == "derivative" and isinstance(n.targets[0].slice, ast.Slice) and n.targets[0].slice.lower is not None and unparse(n.targets[0].slice.lower) == "jj + half"]
         require(len(stores) == 1, "one acceleration store expected", tb.node)
         e = inline_locals(tb, stores[0].value)
         st = tb.params[2]
@@ -225,32 +225,47 @@ def rule_r3(chk, p, t):
     ks = p.func("resonaate.physics.orbits.kepler.solveKeplerProblemUniversal")
 
     def two():
-        defs = {}
-        for n in walk_no_nested(ks.node):
-            if isinstance(n, ast.Assign) and isinstance(n.targets[0], ast.Name):
-                defs.setdefault(n.targets[0].id, []).append(n.value)
-        exp = {
-            "f": "1 - chi ** 2 / norm(r0) * c2",
-            "g": "tof - chi ** 3 / sqrt_mu * c3",
-            "fdot": "sqrt_mu / (r * norm(r0)) * chi * (psi * c3 - 1)",
-            "gdot": "1 - chi ** 2 / r * c2",
-            "alpha": "-norm(v0) ** 2 / mu + 2.0 / norm(r0)",
-            "psi": "chi_sq * alpha",
-            "r": "chi_sq * c2 + vdot(r0, v0) / sqrt_mu * chi * tmp + norm(r0) * (1 - psi * c2)",
-            "tmp": "1 - psi * c3",
-        }
-        bad = []
-        for k, src in exp.items():
-            v = defs.get(k, [])
-            if len(v) != 1 or canon(v[0]) != canon(ast.parse(src, mode="eval").body):
-                bad.append(f"{k} = {[unparse(x)[:60] for x in v]}")
-        rets = [n for n in walk_no_nested(ks.node) if isinstance(n, ast.Return)]
-        if not rets or canon(rets[-1].value) != canon(ast.parse("concatenate((f * r0 + g * v0, fdot * r0 + gdot * v0))", mode="eval").body):
-            bad.append(f"final state `{unparse(rets[-1].value) if rets else None}`")
-        upd = [n for n in walk_no_nested(ks.node) if isinstance(n, ast.AugAssign) and unparse(n.target) == "chi"]
-        wantu = canon(ast.parse("(sqrt_mu * tof - chi ** 3 * c3 - vdot(r0, v0) / sqrt_mu * chi_sq * c2 - norm(r0) * chi * tmp) / r", mode="eval").body)
-        if len(upd) != 1 or canon(upd[0].value) != wantu:
-            bad.append("Newton update of chi")
+        # Vallado Algorithm 8 (universal-variable Kepler propagation) in the implementation's names, compared definition by
+        # definition (rsa/refdefs.py): alpha, the three initial guesses under their alpha ranges, psi, r, the Newton
+        # update, f, g, fdot, gdot and the returned state
+        from rsa import refdefs
+
+        prm = ks.params
+        ref_src = f"""
+def solveKeplerProblemUniversal({", ".join(prm)}):
+    r0 = array(init_state[:3], copy=True)
+    v0 = array(init_state[3:], copy=True)
+    alpha = -norm(v0) ** 2 / mu + 2.0 / norm(r0)
+    sqrt_mu = sqrt(mu)
+    if alpha > 1e-06:
+        chi = sqrt_mu * tof * alpha
+    if fabs(alpha) < 1e-06:
+        p = norm(getAngularMomentum(r0, v0)) ** 2 / mu
+        s = 0.5 * arctan(1 / (3 * sqrt_mu / p ** 3 * tof))
+        chi = sqrt(p) * 2 / tan(2 * arctan(power(tan(s), 1 / 3)))
+    if alpha < -1e-06:
+        sqrt_a = sqrt(-1 / alpha)
+        chi = sign(tof) * sqrt_a * log(-2 * mu * alpha * tof / (vdot(r0, v0) + sign(tof) * sqrt_mu * sqrt_a * (1 - norm(r0) * alpha)))
+    for ii in range(maxiter):
+        chi_sq = chi ** 2
+        psi = chi_sq * alpha
+        c2, c3 = universalC2C3(psi)
+        tmp = 1 - psi * c3
+        r = chi_sq * c2 + vdot(r0, v0) / sqrt_mu * chi * tmp + norm(r0) * (1 - psi * c2)
+        chi_old = chi
+        chi += (sqrt_mu * tof - chi ** 3 * c3 - vdot(r0, v0) / sqrt_mu * chi_sq * c2 - norm(r0) * chi * tmp) / r
+        if isclose(chi, chi_old, rtol=0.0, atol=tol):
+            break
+    f = 1 - chi ** 2 / norm(r0) * c2
+    fdot = sqrt_mu / (r * norm(r0)) * chi * (psi * c3 - 1)
+    g = tof - chi ** 3 / sqrt_mu * c3
+    gdot = 1 - chi ** 2 / r * c2
+    return concatenate((f * r0 + g * v0, fdot * r0 + gdot * v0))
+"""
+        require(list(prm)[:3] == ["init_state", "tof", "mu"] or {"init_state", "tof", "mu", "maxiter", "tol"} <= set(prm), "solveKeplerProblemUniversal: unexpected parameters", ks.node)
+        res = refdefs.compare(ks.node, ast.parse(ref_src).body[0], names=("alpha", "chi", "psi", "c2", "c3", "tmp", "r", "f", "g", "fdot", "gdot", "<return>", "p", "s", "sqrt_a"), unknown_calls={nm_ for nm_ in ks.module.functions if nm_ not in ref_src and not nm_.startswith("__")})
+        bad = [text for _nm, text, _ln in res["mismatch"]]
+        unsure = [text for _nm, text, _ln in res["unsure"] if _nm not in ("chi_old",)]
         cfg = cfg_of(ks)
         chk_nodes = [n for n in cfg.nodes if n.kind == "cond" and "f * gdot - fdot * g" in unparse(n.ast)]
         ret_nodes = [n for n in cfg.nodes if n.kind == "return"]
@@ -264,7 +279,9 @@ def rule_r3(chk, p, t):
                 bad.append("a failed consistency check does not raise")
             _ = neg
         if bad:
-            r.violation(ks.qualname, "kepler:" + ";".join(bad), "universal Kepler solver differs from Vallado's Algorithm 8: " + "; ".join(bad), ks.loc())
+            r.violation(ks.qualname, "kepler:" + ";".join(b_[:60] for b_ in bad), "universal Kepler solver differs from Vallado's Algorithm 8: " + "; ".join(bad), ks.loc())
+        elif unsure:
+            r.undecided(ks.qualname, "; ".join(unsure)[:400], ks.loc())
         else:
             r.ok(ks.qualname, "f, g, fdot, gdot closed form, guarded by the angular-momentum check", ks.loc(), obligations=10)
 
